@@ -103,6 +103,28 @@ Theorem C02_cut : forall (S O B : Type) (init : S) (apply : S -> entry -> S * li
 Proof. exact fsm_cut. Qed.
 Print Assumptions C02_cut.
 
+(* (Persist may come later) raft calls Persist from another goroutine while it keeps handing entries to Apply:
+   whatever k entries are applied in between, the persisted snapshot is the one an immediate Persist would have
+   written — the state message and the retained entries firstIndex..lastIndex as captured by Snapshot() — and it is
+   filed under the number of entries applied when Snapshot() ran (the schedules of the theorems above contain such
+   steps: SSnapshot t k ok) *)
+Theorem C02_persist_late : forall (S O B : Type) (init : S) (apply : S -> entry -> S * list O)
+    (marshal : S -> N -> B) (unmarshal : B -> option (S * N)) (exp_of : S -> N),
+  (forall s k, unmarshal (marshal s k) = Some (s, k)) ->
+  (forall s e, sets_exp e = false -> exp_of (fst (apply s e)) = exp_of s) ->
+  eff_exp (exp_of init) = ten_minutes ->
+  forall v : variant, fix_d3 v = true -> fix_d15 v = true ->
+  forall (L : list entry) (sigma : list step),
+  log_ok L ->
+  schedule_ok S O B init apply marshal unmarshal exp_of v L sigma (world0 S O B init) ->
+  let w := run S O B init apply marshal unmarshal exp_of v L sigma (world0 S O B init) in
+  forall (t : Z) (k : nat) f' sn,
+  fsm_snapshot S O B init apply marshal unmarshal exp_of v t (w_fsm w) = Some (f', sn) ->
+  persist S O B (w_fsm (apply_n S O B apply exp_of L k (mkWorld S O B f' (w_applied w) (w_persisted w)))) sn (w_applied w) =
+  persist S O B f' sn (w_applied w).
+Proof. exact fsm_persist_late. Qed.
+Print Assumptions C02_persist_late.
+
 (* ---- the pinned tree (before the fixes) violates the property: witnesses on the digest machine ---- *)
 (* D3: a Snapshot that folds every stored entry files the state under the wrong key *)
 Theorem C02_refuted_pinned : exists L sigma, log_ok L /\ d_valid pinned L sigma /\
